@@ -273,6 +273,17 @@ class StatusFlow:
         self.helpers = helpers or {}     # own-class Status helpers: name -> set of (value, kind); kind = underlying update name | 'hlit'
         self.unmodelled_tests = []       # conditions on a Status local that the refinement does not understand
         self.svars = {d for d, v in self.lo.var.items() if is_status_type(fn, v.get("t")) and not v.get("ref")}
+        # bool locals that (somewhere) receive a test of a Status local: tracked as facts ("b", d) -> {id of the test expression}
+        self.bvars = set()
+        for n in fn.nodes():
+            tgt, src = None, None
+            if n.get("k") == "Var" and n.get("init") is not None and not n.get("ref"):
+                tgt, src = n.get("d"), n["init"]
+            elif n.get("k") == "Assign" and strip(n["lhs"]).get("k") == "Ref" and strip(n["lhs"]).get("dk") == "local":
+                tgt, src = strip(n["lhs"]).get("d"), n["rhs"]
+            if tgt is not None and (fn.type((self.lo.var.get(tgt) or {}).get("t")) or "").replace("const ", "").strip() == "bool" \
+                    and any(x.get("k") == "Ref" and x.get("d") in self.svars for x in walk(src)):
+                self.bvars.add(tgt)
         self.problems = []
         self.returns = {}      # return stmt id -> set
         self.kills = []        # (stmt id, var name, old set, new set)
@@ -280,11 +291,12 @@ class StatusFlow:
         self._run()
 
     # evaluation
-    def ev(self, e, state, sid):
+    def ev(self, e, state, sid, ctx=()):
+        """ctx: the (?: condition node id, polarity) pairs under which this operand is selected"""
         e = strip(e)
         v = status_lit(e)
         if v is not None:
-            return {(v, ("lit", sid))}
+            return {(v, ("lit", sid, tuple(ctx)))}
         k = e.get("k")
         if k == "Ref" and e.get("d") in self.svars:
             if e["d"] not in state:
@@ -298,15 +310,66 @@ class StatusFlow:
                 return {(v, ("hlit", e["i"], nm) if kind == "hlit" else ("upd", e["i"], kind)) for v, kind in self.helpers[nm]}
             raise Unknown("Status produced by unmodelled call %s" % render(e)[:80])
         if k == "Cond":
-            return self.ev(e["then"], state, sid) | self.ev(e["else"], state, sid)
+            ci = strip(e["c"]).get("i")
+            return self.ev(e["then"], state, sid, tuple(ctx) + ((ci, True),)) | self.ev(e["else"], state, sid, tuple(ctx) + ((ci, False),))
         if k == "Assign" and e.get("op") == "=":
-            return self.ev(e["rhs"], state, sid)
+            return self.ev(e["rhs"], state, sid, ctx)
         raise Unknown("Status value of unmodelled expression %s" % render(e)[:80])
 
-    def refine(self, c, pol, state):
-        st = dict(state)
+    def bool_facts(self, leaf, state):
+        """a bool local that holds a test of a Status local which is still valid here -> the possible test expressions
+        (one per reaching definition), None if some reaching definition is unknown / stale"""
+        if leaf.get("k") == "Ref" and leaf.get("dk") == "local" and ("b", leaf.get("d")) in state:
+            ids = state[("b", leaf["d"])]
+            if ids and -1 not in ids and len(ids) <= 3:
+                es = [self.fn.by_id(i) for i in sorted(ids)]
+                if all(e is not None for e in es):
+                    return es
+        return None
+
+    def expand_alternatives(self, c, pol, state, depth=0):
+        """-> list of alternatives, each a list of (leaf, polarity): bool locals holding Status tests are replaced by the test
+        they hold; several reaching definitions give several alternatives (the refined states are joined)"""
+        alts = [[]]
         for leaf, p in leaf_guards(c, pol):
             leaf = strip(leaf)
+            es = self.bool_facts(leaf, state) if depth < 4 else None
+            if es is None:
+                opts = [[(leaf, p)]]
+            else:
+                opts = []
+                for e in es:
+                    opts += self.expand_alternatives(e, p, state, depth + 1)
+            alts = [a + o for a in alts for o in opts][:16]
+        return alts
+
+    def expand_leaves(self, c, pol, state, depth=0):
+        out = []
+        for alt in self.expand_alternatives(c, pol, state):
+            out += alt
+        return out
+
+    def refine(self, c, pol, state):
+        res = None
+        for alt in self.expand_alternatives(c, pol, state):
+            st = self.refine_leaves(alt, state)
+            if st is None:
+                continue
+            if res is None:
+                res = dict(st)
+            else:
+                for d, vs in st.items():
+                    res[d] = (res[d] | vs) if d in res else vs
+        return res
+
+    def refine_leaves(self, leaves, state):
+        st = dict(state)
+        for leaf, p in leaves:
+            leaf = strip(leaf)
+            if leaf.get("k") == "Bool":
+                if bool(leaf.get("v")) != p:
+                    return None
+                continue
             if leaf.get("k") != "Bin" or leaf.get("op") not in ("==", "!="):
                 continue
             l, r = strip(leaf["lhs"]), strip(leaf["rhs"])
@@ -327,13 +390,15 @@ class StatusFlow:
             st[l["d"]] = new
         return st
 
-    def note_unmodelled(self, c):
+    def note_unmodelled(self, c, state=None):
         """a branch condition that mentions a Status local in a form refine() does not model"""
-        for leaf, p in leaf_guards(c, True) + leaf_guards(c, False):
+        state = state or {}
+        for leaf, p in self.expand_leaves(c, True, state) + self.expand_leaves(c, False, state):
             leaf = strip(leaf)
             if leaf.get("_refined"):
                 continue
-            if any(x.get("k") == "Ref" and x.get("d") in self.svars for x in walk(leaf)):
+            stale = leaf.get("k") == "Ref" and leaf.get("d") in self.bvars       # a bool holding a Status test that is not (or no longer) known here
+            if stale or any(x.get("k") == "Ref" and x.get("d") in self.svars for x in walk(leaf)):
                 t = "line %s: `%s`" % (leaf.get("l"), render(leaf)[:60])
                 if t not in self.unmodelled_tests:
                     self.unmodelled_tests.append(t)
@@ -373,18 +438,33 @@ class StatusFlow:
                             if v.get("init") is None:
                                 continue
                             st[v["d"]] = frozenset(self.ev(v["init"], st, sid))
+                            self.stale_bools(st, v["d"])
+                        elif v["d"] in self.bvars:
+                            st[("b", v["d"])] = frozenset({strip(v["init"])["i"]}) if v.get("init") is not None and "i" in strip(v["init"]) else frozenset({-1})
+                elif k == "Assign" and strip(n["lhs"]).get("k") == "Ref" and strip(n["lhs"]).get("d") in self.bvars:
+                    st[("b", strip(n["lhs"])["d"])] = frozenset({strip(n["rhs"])["i"]}) if n.get("op") == "=" and "i" in strip(n["rhs"]) else frozenset({-1})
                 elif k == "Assign" and n.get("op") == "=" and strip(n["lhs"]).get("k") == "Ref" and strip(n["lhs"])["d"] in self.svars:
                     d = strip(n["lhs"])["d"]
                     new = frozenset(self.ev(n["rhs"], st, sid))
                     if record:
                         self.kills.append((sid, strip(n["lhs"])["n"], st.get(d, frozenset()), new))
                     st[d] = new
+                    self.stale_bools(st, d)
                 elif k == "Return" and record and n.get("e") is not None:
                     self.returns[sid] = self.ev(n["e"], st, sid)
             except Unknown as u:
                 if record:
                     self.problems.append("%s (line %s)" % (u, n.get("l")))
         return st
+
+    def stale_bools(self, st, d):
+        """the Status local d was assigned: tests of it held in bool locals no longer describe it"""
+        for key in [k2 for k2 in st if isinstance(k2, tuple) and k2[0] == "b"]:
+            for i in st[key]:
+                e = self.fn.by_id(i) if i != -1 else None
+                if e is not None and any(x.get("k") == "Ref" and x.get("d") == d for x in walk(e)):
+                    st[key] = frozenset({-1})
+                    break
 
     def _run(self):
         cfg = self.cfg
@@ -400,7 +480,7 @@ class StatusFlow:
             if blk.get("term") == "SwitchStmt":
                 sw_d, sw = self.switch_targets(blk)
                 if sw is None and c is not None and any(x.get("k") == "Ref" and x.get("d") in self.svars for x in walk(c)):
-                    self.note_unmodelled(c)
+                    self.note_unmodelled(c, out)
             elif c is not None and len(ss) == 2:
                 pass
             for pos, s in enumerate(ss):
@@ -416,7 +496,7 @@ class StatusFlow:
                 elif c is not None and len(ss) == 2 and ss[0] != ss[1]:
                     so = self.refine(c, pos == 0, out)
                     if pos == 1:
-                        self.note_unmodelled(c)
+                        self.note_unmodelled(c, out)
                     if so is None:
                         continue
                 old = self.instate.get(s)
@@ -450,7 +530,13 @@ def callee_value_sets(facts, ck):
         for f in base:
             if f.name != nm or f.cfg is None:
                 continue
-            sf = StatusFlow(f, cv)
+            # Status-returning helpers of the base class (a criterion extracted into its own function) are summarised
+            members = {}
+            for g in base:
+                if g.cls == f.cls and g.name not in UPD:
+                    members.setdefault(g.name, []).append(g)
+            _c, summ, _fl = status_helpers(members, f.cls, cv, skip=())
+            sf = StatusFlow(f, cv, summ)
             if sf.problems:
                 ck.incomplete("E7.status-origin", "IterativeSolver::%s: %s" % (nm, "; ".join(sf.problems[:3])))
             v = set()
@@ -468,11 +554,16 @@ KNOWN_PREDICATES = ("is_converged", "is_diverged", "isfinite", "isnan", "_plot_i
                     "dot", "norm2", "wait", "size", "at", "back", "front", "get_num_iter", "min", "max", "empty")
 
 
-def classify_literal(fn, lo, gd, value, sid, defect_obj):
-    """is the Status enumerator written in statement sid justified by the branch facts that dominate it?
+def classify_literal(fn, lo, gd, value, sid, defect_obj, ctx=()):
+    """is the Status enumerator written in statement sid justified by the branch facts that dominate it (and by the
+    conditions of the ?: operators that select it inside the statement: ctx = ((condition node id, polarity), ...))?
     -> (ok, why) ; ok None = not decidable (a dominating test goes through a predicate this rule does not model)"""
     guards = []
     todo = list(gd.of_stmt(sid))
+    for ci, pol in ctx or ():
+        cn = fn.by_id(ci)
+        if cn is not None:
+            todo += leaf_guards(cn, pol)
     n_exp = 0
     while todo and n_exp < 200:
         c, pol = todo.pop(0)
@@ -556,6 +647,18 @@ def outer_loops(fn, sf):
                 if x.get("k") == "Ref" and x.get("d") in sf.svars:
                     d = x["d"]
                     break
+            if d is None:
+                # `while(iterating)` with a bool local that holds a test of the Status local
+                held = {x.get("d") for x in walk(c) if x.get("k") == "Ref" and x.get("d") in sf.bvars}
+                for n in fn.nodes() if held else ():
+                    src = None
+                    if n.get("k") == "Var" and n.get("d") in held and n.get("init") is not None:
+                        src = n["init"]
+                    elif n.get("k") == "Assign" and strip(n["lhs"]).get("k") == "Ref" and strip(n["lhs"]).get("d") in held:
+                        src = n["rhs"]
+                    for x in walk(src) if src is not None else ():
+                        if x.get("k") == "Ref" and x.get("d") in sf.svars:
+                            d = x["d"]
         if d is None and (c is None or strip(c).get("k") == "Bool"):
             # for(;;) / while(true): the iteration loop if a status assignment lies on its cycle
             succ = [s for s in b.get("succ", []) if s is not None]
@@ -688,11 +791,11 @@ def rule_status_protocol(ck, solvers, cv):
                 seen = set()
                 for rid, vals in sorted(usf.returns.items()):
                     for v, org in sorted(vals, key=str):
-                        if org[0] != "lit" or v in ("progress", "undefined") or (v, org[1]) in seen:
+                        if org[0] != "lit" or v in ("progress", "undefined") or (v, org[1], org[2]) in seen:
                             continue
-                        seen.add((v, org[1]))
+                        seen.add((v, org[1], org[2]))
                         nlit += 1
-                        ok, why = classify_literal(ufn, ulo, ugd, v, org[1], defect_obj)
+                        ok, why = classify_literal(ufn, ulo, ugd, v, org[1], defect_obj, org[2])
                         sl = (ufn.by_id(org[1]) or {}).get("l")
                         if ok is None:
                             ck.incomplete("E7.status-origin", "%s::%s [%s] line %s: %s" % (sc, un, tag, sl, why))
@@ -802,6 +905,8 @@ def describe_state(sf, bid):
         return "?"
     parts = []
     for d, vs in sf.instate[bid].items():
+        if isinstance(d, tuple):
+            continue
         nm = sf.lo.var[d]["n"]
         parts.append("%s in {%s}" % (nm, ", ".join(sorted({"%s<-%s" % (x[0], x[1][2] if x[1][0] == "upd" else "literal") for x in vs}))))
     return "; ".join(parts)
@@ -991,6 +1096,8 @@ def formula(lo, e):
             if op == ">":
                 return ("not", ("atom", "le(%s,%s)" % (a, b)))
             x, y = sorted([a, b])
+            if x in ALL_STATUS and y in ALL_STATUS:
+                return ("const", (x == y) == (op == "=="))      # two enumerators (a Status result of an inlined helper)
             f = ("atom", "eq(%s,%s)" % (x, y))
             return f if op == "==" else ("not", f)
     return ("atom", term(lo, e))
@@ -1033,7 +1140,8 @@ def split_top(s):
 
 
 class PathLocals:
-    """Locals view along one path: re-assigned locals resolve to the value they hold at this point of the path"""
+    """Locals view along one path: re-assigned locals resolve to the value they hold at this point of the path,
+    bound parameters (of an inlined helper) to the caller's value, inlined calls (key ('call', node id)) to their result"""
 
     def __init__(self, base, env):
         self.base, self.env = base, env
@@ -1041,9 +1149,16 @@ class PathLocals:
 
     def resolve(self, e, depth=0):
         e = strip(e)
-        while isinstance(e, dict) and e.get("k") == "Ref" and e.get("dk") == "local" and depth < 20:
+        while isinstance(e, dict) and depth < 20:
+            k = e.get("k")
+            if k in ("MCall", "Call") and ("call", e.get("i")) in self.env:
+                return self.env[("call", e["i"])]
+            if k != "Ref" or e.get("dk") not in ("local", "param"):
+                break
             if e.get("d") in self.env:
                 return self.env[e["d"]]
+            if e.get("dk") == "param":
+                break
             v = self.var.get(e.get("d"))
             if v is None or v.get("init") is None:
                 break
@@ -1054,18 +1169,41 @@ class PathLocals:
         return e
 
 
+def f_text(f):
+    """canonical text of a formula tree (used when a bool result of an inlined helper occurs inside a term)"""
+    if f[0] == "const":
+        return "true" if f[1] else "false"
+    if f[0] == "atom":
+        return f[1]
+    if f[0] == "not":
+        return "not(%s)" % f_text(f[1])
+    return "%s(%s,%s)" % (f[0], f_text(f[1]), f_text(f[2]))
+
+
 class Paths:
     """all entry->exit paths of a loop-free function: constraints [(formula, polarity)], field effects, outcome.
-    Locals that are assigned more than once are tracked along each path (symbolic store)."""
+    Locals that are assigned more than once are tracked along each path (symbolic store).
+    Calls of own-class helpers in `methods` ({name: Function}, the caller decides which are eligible: same class,
+    non-virtual or not overridden, not one of the predicates the oracle treats as atoms) are followed: the helper's
+    paths are enumerated with its parameters bound to the caller's values (depth <= 3, no recursion) and spliced
+    into the caller's path - constraints, field effects in the caller's terms, and the result bound to the call
+    expression.  Own non-const calls that could not be followed are listed in `opaque_calls`."""
 
-    def __init__(self, fn, bool_result=False):
+    MAX_DEPTH = 3
+
+    def __init__(self, fn, bool_result=False, methods=None, bind=None, depth=0, stack=()):
         self.fn = fn
         self.lo = Locals(fn)
         self.paths = []
         self.problems = []
         self.bool_result = bool_result
+        self.methods = methods or {}
+        self.depth, self.stack = depth, tuple(stack) + (fn.name,)
+        self.opaque_calls = []
+        self.inlined = {}               # name -> Function of the helpers that were followed
+        self._sub = {}
         cfg = fn.cfg
-        self._walk(cfg.entry, [], [], set(), {})
+        self._walk(cfg.entry, [], [], set(), dict(bind or {}), 0, [])
 
     def _select(self, lo, e, cons):
         """a ?: whose condition was already decided on this path denotes the chosen branch"""
@@ -1091,10 +1229,39 @@ class Paths:
                 f = None
         return {"k": "_Term", "text": t, "f": f}
 
-    def _walk(self, b, cons, eff, onpath, env):
+    def _helper_of(self, n):
+        """the own-class helper a call element denotes, if it is to be followed"""
+        if n.get("k") != "MCall" or not (n.get("obj") is None or n["obj"].get("k") == "This"):
+            return None
+        h = self.methods.get(cname(n))
+        if h is None or h.cfg is None or h is self.fn:
+            return None
+        if len(h.params) != len(n.get("a", [])):
+            return None
+        return h
+
+    def _inline(self, n, h, lo, cons):
+        """paths of helper h for the call n with the parameters bound -> list of sub paths or None"""
+        if self.depth >= self.MAX_DEPTH or h.name in self.stack:
+            return None
+        bind = {}
+        for prm, a in zip(h.params, n.get("a", [])):
+            bind[prm["d"]] = self._value(lo, a, h.type(prm["t"]) or "", cons)
+        ret = (h.type(h.d["ret"]) or "").replace("const ", "").strip() if h.d.get("ret") is not None else "void"
+        sub = Paths(h, bool_result=(ret == "bool"), methods=self.methods, bind=bind, depth=self.depth + 1, stack=self.stack)
+        if sub.problems or not sub.paths:
+            return None
+        self.inlined[h.name] = h
+        self.inlined.update(sub.inlined)
+        for x in sub.opaque_calls:
+            if x not in self.opaque_calls:
+                self.opaque_calls.append(x)
+        return sub
+
+    def _walk(self, b, cons, eff, onpath, env, start, seq):
         cfg = self.fn.cfg
         fn = self.fn
-        if b in onpath:
+        if b in onpath and start == 0:
             self.problems.append("function is not loop-free (block %d revisited)" % b)
             return
         if len(self.paths) > 4000:
@@ -1102,20 +1269,52 @@ class Paths:
             return
         blk = cfg.blocks[b]
         eff = list(eff)
+        seq = list(seq)
         env = dict(env)
         lo = PathLocals(self.lo, env)
-        for sid in blk["el"]:
+        for pos in range(start, len(blk["el"])):
+            sid = blk["el"][pos]
             n = fn.by_id(sid)
             if n is None:
                 continue
             k = n.get("k")
+            if k == "MCall" and (n.get("obj") is None or n["obj"].get("k") == "This"):
+                h = self._helper_of(n)
+                sub = self._inline(n, h, lo, cons) if h is not None else None
+                if sub is not None:
+                    for sp in sub.paths:
+                        out = sp["out"]
+                        if sub.bool_result and out is not None:
+                            res = {"k": "_Term", "text": f_text(out), "f": out}
+                        else:
+                            res = {"k": "_Term", "text": out if out is not None else "void", "f": None}
+                        env2 = dict(env)
+                        env2[("call", n["i"])] = res
+                        self._walk(b, cons + list(sp["cons"]), eff + list(sp["eff"]), onpath, env2, pos + 1, seq + list(sp["seq"]))
+                    return
+                if not n.get("cconst") and cname(n) not in BASE_KNOWN and cname(n) not in self.opaque_calls:
+                    self.opaque_calls.append(cname(n))
+                seq.append(("call", cname(n), term(lo, n)))
+            elif k == "OpCall" and n.get("op") == "()" and ("lambda/functor call at line %s" % n.get("l")) not in self.opaque_calls:
+                self.opaque_calls.append("lambda/functor call at line %s" % n.get("l"))
             if k == "Decl":
                 for v in n.get("vars", []):
                     if not v.get("ref") and v.get("init") is not None and self.lo.writes.get(v["d"], 0) > 0:
                         env[v["d"]] = self._value(lo, v["init"], fn.type(v.get("t")) or "", cons)
             elif k == "Assign":
                 lhs = strip(n["lhs"])
-                if lhs.get("k") == "Ref" and lhs.get("dk") == "local" and not (self.lo.var.get(lhs["d"]) or {}).get("ref"):
+                byref = None
+                if lhs.get("k") == "Ref" and lhs.get("dk") == "param" and lhs.get("d") in env and "&" in (fn.ntype(lhs) or ""):
+                    # write through a reference parameter of an inlined helper: an effect on the caller's field
+                    byref = env[lhs["d"]].get("text", "")
+                if byref is not None:
+                    if re.match(r"^_\w+$", byref):
+                        rhs = n["rhs"]
+                        eff.append(("%s%s" % (byref, n["op"]), term(lo, rhs)))
+                        seq.append(("eff", "%s%s" % (byref, n["op"]), term(lo, rhs)))
+                    else:
+                        self.problems.append("write through reference parameter '%s' bound to %s" % (lhs.get("n"), byref[:30]))
+                elif lhs.get("k") == "Ref" and lhs.get("dk") in ("local", "param") and not (self.lo.var.get(lhs["d"]) or {}).get("ref"):
                     ty = fn.ntype(lhs) or ""
                     if n.get("op") == "=":
                         env[lhs["d"]] = self._value(lo, n["rhs"], ty, cons)
@@ -1128,11 +1327,16 @@ class Paths:
                     while strip(rhs).get("k") == "Assign" and strip(rhs).get("op") == "=":
                         rhs = strip(rhs)["rhs"]
                     eff.append(("%s%s" % (term(lo, lhs), n["op"]), term(lo, rhs)))
+                    seq.append(("eff",) + eff[-1])
             elif k == "Un" and n.get("op") in ("++", "--"):
                 t = strip(n["e"])
                 if t.get("k") == "Member" and t.get("field"):
                     eff.append((term(lo, t) + n["op"], ""))
-                elif t.get("k") == "Ref" and t.get("dk") == "local":
+                    seq.append(("eff",) + eff[-1])
+                elif t.get("k") == "Ref" and t.get("dk") == "param" and t.get("d") in env and "&" in (fn.ntype(t) or "") and re.match(r"^_\w+$", env[t["d"]].get("text", "")):
+                    eff.append((env[t["d"]]["text"] + n["op"], ""))
+                    seq.append(("eff",) + eff[-1])
+                elif t.get("k") == "Ref" and t.get("dk") in ("local", "param"):
                     env[t["d"]] = {"k": "_Term", "text": "%s(%s)" % (n["op"], term(lo, t)), "f": None}
             elif k == "Return":
                 e = n.get("e")
@@ -1142,10 +1346,10 @@ class Paths:
                     out = formula(lo, e)
                 else:
                     out = term(lo, e) if e is not None else None
-                self.paths.append({"cons": cons, "eff": eff, "out": out, "line": n.get("l")})
+                self.paths.append({"cons": cons, "eff": eff, "out": out, "line": n.get("l"), "seq": seq})
                 return
         if b == cfg.exit:
-            self.paths.append({"cons": cons, "eff": eff, "out": None, "line": self.fn.end})
+            self.paths.append({"cons": cons, "eff": eff, "out": None, "line": self.fn.end, "seq": seq})
             return
         ss = [s for s in blk.get("succ", []) if s is not None]
         if blk.get("noreturn"):
@@ -1153,14 +1357,28 @@ class Paths:
         if any((self.fn.by_id(s) or {}).get("k") == "Throw" for s in blk["el"]):
             return
         if len(ss) == 1 or (len(ss) == 2 and ss[0] == ss[1]):
-            self._walk(ss[0], cons, eff, onpath | {b}, env)
+            self._walk(ss[0], cons, eff, onpath | {b}, env, 0, seq)
+        elif blk.get("term") == "SwitchStmt" and blk.get("cond") is not None:
+            # switch(x): one path per label with eq(x, label) true and the other labels false; default: all false
+            c = self.fn.by_id(blk["cond"])
+            tc = term(lo, c)
+            cases, default = [], None
+            for s2 in ss:
+                lab = self.fn.by_id(cfg.blocks[s2].get("label")) if cfg.blocks[s2].get("label") is not None else None
+                if lab is not None and lab.get("k") == "Case" and lab.get("v") is not None:
+                    x, y = sorted([tc, term(lo, lab["v"])])
+                    cases.append((s2, ("atom", "eq(%s,%s)" % (x, y))))
+                else:
+                    default = s2
+            for s2, a in cases:
+                self._walk(s2, cons + [(a, True)] + [(a2, False) for s3, a2 in cases if a2 != a], eff, onpath | {b}, env, 0, seq)
+            if default is not None:
+                self._walk(default, cons + [(a, False) for s2, a in cases], eff, onpath | {b}, env, 0, seq)
         elif len(ss) == 2 and blk.get("cond") is not None:
             c = self.fn.by_id(blk["cond"])
             f = formula(lo, c)
-            self._walk(ss[0], cons + [(f, True)], eff, onpath | {b}, env)
-            self._walk(ss[1], cons + [(f, False)], eff, onpath | {b}, env)
-        elif blk.get("term") == "SwitchStmt":
-            self.problems.append("switch")
+            self._walk(ss[0], cons + [(f, True)], eff, onpath | {b}, env, 0, seq)
+            self._walk(ss[1], cons + [(f, False)], eff, onpath | {b}, env, 0, seq)
         else:
             self.problems.append("unmodelled terminator %s" % blk.get("term"))
 
@@ -1229,14 +1447,27 @@ def monotone(ps, var, increasing):
 BASE_KNOWN = {"_calc_def_norm", "_analyse_defect", "_plot_iter", "_plot_iter_line", "_print_line", "is_converged", "is_diverged", "name", "get_num_iter"}
 
 
+def _is_const_term(t):
+    return bool(re.match(r"^-?[\w.]+$", t)) and not t.startswith("_")
+
+
 def consistent(env):
-    """totality of <=: le(a,b) and le(b,a) cannot both be false"""
+    """totality of <=: le(a,b) and le(b,a) cannot both be false; one quantity cannot equal two different constants"""
+    eqs = []
     for a, v in env.items():
         if not v and a.startswith("le("):
             l, r = split_top(a[3:-1])
             o = "le(%s,%s)" % (r, l)
             if o in env and not env[o]:
                 return False
+        elif v and a.startswith("eq("):
+            eqs.append(split_top(a[3:-1]))
+    for i, (a1, b1) in enumerate(eqs):
+        for a2, b2 in eqs[i + 1:]:
+            for x, y in ((a1, b1), (b1, a1)):
+                for x2, y2 in ((a2, b2), (b2, a2)):
+                    if x == x2 and y != y2 and _is_const_term(y) and _is_const_term(y2) and not _is_const_term(x):
+                        return False
     return True
 
 
@@ -1267,9 +1498,9 @@ def compare_table(ck, rule, key, fn, paths, oracle_atoms, oracle):
             if isinstance(g[0], str) and g[0] not in ALL_STATUS:
                 ck.incomplete(rule, "%s: the value returned at line %s (%s) is not an enumerator this rule can evaluate" % (key, g[2], g[0][:60]))
                 return
-            carriers = own_unmodelled_calls(fn, BASE_KNOWN)
+            carriers = paths.opaque_calls
             if carriers:
-                ck.incomplete(rule, "%s: the body differs from the documented table but delegates to %s, which this rule does not follow" % (key, ", ".join(carriers)))
+                ck.incomplete(rule, "%s: the body differs from the documented table but delegates to %s, which this rule could not follow (virtual and overridden, recursive, not loop-free or nested too deep)" % (key, ", ".join(carriers)))
                 return
             wit = ", ".join("%s=%s" % (a, "T" if env[a] else "F") for a in atoms)
             ck.ob(rule, key, False, "the code deviates from the documented criterion: for {%s} the code (return at line %s) yields %s with effects %s, the documentation says %s with effects %s%s" % (
@@ -1443,6 +1674,32 @@ def oracle_set_initial_defect(env):
     return ("progress", INI_EFFECTS)
 
 
+_INL_CACHE = {}
+
+
+def inlinable_methods(facts, fn):
+    """own-class helpers of fn's class that Paths may follow: members of the same instantiation with a body, not the
+    predicates the oracles treat as atoms (BASE_KNOWN) nor the defect-update protocol itself, and statically bound:
+    non-virtual, or virtual but defined by no other class of the solver directory (nothing to dispatch to)"""
+    key = (id(facts), fn.cls)
+    if key not in _INL_CACHE:
+        defined = {}
+        for f in facts.functions:
+            if f.tk in ("inst", "plain") and ("/" + SOLVER_DIR) in f.file:
+                defined.setdefault(f.name, set()).add(short_cls(f.cls))
+        out = {}
+        for f in facts.functions:
+            if f.cls != fn.cls or f.cfg is None or f.d.get("ctor") or f.d.get("dtor") or f.tk not in ("inst", "plain"):
+                continue
+            if f.name in BASE_KNOWN or f.name in UPD or f.name.startswith("set_") or f.name.startswith("get_"):
+                continue
+            if f.d.get("virtual") and len(defined.get(f.name, ())) > 1:
+                continue
+            out.setdefault(f.name, f)
+        _INL_CACHE[key] = out
+    return _INL_CACHE[key]
+
+
 def base_functions(facts, name, nparams=None):
     out = []
     for f in facts.functions:
@@ -1464,7 +1721,7 @@ def rule_decision_tables(ck, facts):
             continue
         done = set()
         for fn in fns:
-            ps = Paths(fn, bool_result=isbool)
+            ps = Paths(fn, bool_result=isbool, methods=inlinable_methods(facts, fn))
             sig = repr([(p["cons"], p["eff"], p["out"]) for p in ps.paths])
             if sig in done:
                 continue        # identical body in another instantiation
@@ -1480,14 +1737,64 @@ def rule_decision_tables(ck, facts):
                 else:
                     ck.ob("E13.monotone", key, ok, why, fn.file, fn.line)
     # each terminal literal of the base-class functions is guarded by its configuration field
+    # (the literal may sit in a helper that the function delegates to: the guards of the call site count as well)
     for name in ("_analyse_defect", "_set_initial_defect"):
         for fn in base_functions(facts, name)[:1]:
-            lo, gd = Locals(fn), Guards(fn)
-            for n in fn.nodes():
-                if n.get("k") == "Return" and status_lit(n.get("e")) in ("max_iter", "stagnated"):
-                    v = status_lit(n["e"])
-                    ok, why = classify_literal(fn, lo, gd, v, n["i"], None)
-                    ck.ob("E13.guard-field", "IterativeSolver::%s/%s" % (name, v), bool(ok), "line %s: %s" % (n.get("l"), why), fn.file, n.get("l"))
+            units = [(fn, [])]
+            seen_h = {fn.name}
+            meth = inlinable_methods(facts, fn)
+            k = 0
+            while k < len(units) and k < 8:
+                ufn, outer = units[k]
+                k += 1
+                ugd = Guards(ufn)
+                for c in ufn.calls():
+                    if c.get("k") == "MCall" and (c.get("obj") is None or c["obj"].get("k") == "This") and cname(c) in meth and cname(c) not in seen_h:
+                        seen_h.add(cname(c))
+                        units.append((meth[cname(c)], outer + [(ufn, g) for g in ugd.of_stmt(c["i"])]))
+            for ufn, outer in units:
+                lo, gd = Locals(ufn), Guards(ufn)
+                par = parent_map(ufn)
+                for x in ufn.nodes():
+                    v = status_lit(x) if x.get("k") == "Ref" else None
+                    if v not in ("max_iter", "stagnated"):
+                        continue
+                    # a produced value (returned / assigned / selected by ?:), not an operand of a comparison or a case label
+                    ctx, cur, produced = [], x, True
+                    while True:
+                        pn = par.get(cur.get("i"))
+                        if pn is None:
+                            break
+                        if pn.get("k") == "Bin" and pn.get("op") in ("==", "!="):
+                            produced = False
+                        if pn.get("k") == "Case" and pn.get("v") is not None and any(y is cur for y in walk(pn["v"])):
+                            produced = False
+                        if pn.get("k") == "Cond" and "i" in strip(pn["c"]):
+                            if any(y.get("i") == cur.get("i") for y in walk(pn["then"])):
+                                ctx.append((strip(pn["c"])["i"], True))
+                            elif any(y.get("i") == cur.get("i") for y in walk(pn["else"])):
+                                ctx.append((strip(pn["c"])["i"], False))
+                        if "i" in pn and ufn.cfg.block_of(pn["i"]) is not None and pn.get("k") in ("Return", "Assign", "Decl"):
+                            cur = pn
+                            break
+                        cur = pn
+                    if not produced:
+                        continue
+                    if cur.get("k") not in ("Return", "Assign", "Decl") or ufn.cfg.block_of(cur["i"]) is None:
+                        ck.incomplete("E13.guard-field", "IterativeSolver::%s/%s: the literal at line %s is not part of a return / assignment this rule can locate" % (name, v, x.get("l")))
+                        continue
+                    ok, why = classify_literal(ufn, lo, gd, v, cur["i"], None, tuple(ctx))
+                    if not ok and outer:
+                        # guards of the call site(s) that lead here
+                        need = ("_max_iter",) if v == "max_iter" else ("_min_stag_iter", "_stag_rate")
+                        for ofn, (c, pol) in outer:
+                            names = {y.get("n") for y in walk(Locals(ofn).resolve(c)) if y.get("k") == "Member"}
+                            if names & set(need):
+                                ok, why = True, "under a test of %s at the call site in %s" % ("/".join(sorted(names & set(need))), ofn.name)
+                    if ok is None:
+                        ck.incomplete("E13.guard-field", "IterativeSolver::%s/%s line %s: %s" % (name, v, x.get("l"), why))
+                        continue
+                    ck.ob("E13.guard-field", "IterativeSolver::%s/%s" % (name, v), bool(ok), "line %s: %s" % (x.get("l"), why), ufn.file, x.get("l"))
 
 
 def rule_status_success(ck, facts):
@@ -1571,11 +1878,11 @@ def rule_defect_update(ck, facts):
             continue
         fn = fns[0]
         key = "IterativeSolver::%s" % name
-        ps = Paths(fn)
+        ps = Paths(fn, methods=inlinable_methods(facts, fn))
         if ps.problems or not ps.paths:
             ck.incomplete("E7.num-iter-once", "%s: %s" % (key, "; ".join(sorted(set(ps.problems))[:3]) or "no paths"))
             continue
-        carriers = own_unmodelled_calls(fn, BASE_KNOWN)
+        carriers = ps.opaque_calls
         if carriers:
             ck.incomplete("E7.num-iter-once", "%s delegates to %s, which this rule does not follow (may update _num_iter/_def_prev/_def_cur)" % (key, ", ".join(carriers)))
             continue
@@ -1604,39 +1911,46 @@ def rule_defect_update(ck, facts):
         ck.ob("E7.defect-history", key, not bad_hist and not bad_def,
               ("; ".join("%s (path to line %s)" % (b[1], b[0]) for b in (bad_hist + bad_def)[:3])) if (bad_hist or bad_def)
               else "_def_prev = _def_cur precedes the only write `_def_cur = %s` on each of the %d paths" % (newdef or "$" + fn.params[0]["n"], len(ps.paths)), fn.file, fn.line)
-        # the returned status is _analyse_defect(_num_iter, _def_cur, _def_prev, true), roles by callee parameter name
-        lo = ps.lo
+        # the returned status is _analyse_defect(_num_iter, _def_cur, _def_prev, true), roles by callee parameter name;
+        # decided per path on the spliced event sequence (so it survives helpers and shared tails)
+        ana = base_functions(facts, "_analyse_defect")
+        pn = [q["n"] for q in ana[0].params] if ana else []
         ok, why = True, []
-        nret = 0
-        for n in fn.nodes():
-            if n.get("k") != "Return":
+        for p in ps.paths:
+            out = p["out"] or ""
+            m = re.match(r"^_analyse_defect\((.*)\)$", out)
+            if not m:
+                if out in ALL_STATUS:
+                    ok = False
+                    why.append("the path to line %s returns the literal Status::%s, not the result of _analyse_defect" % (p["line"], out))
+                else:
+                    ck.incomplete("E1.analyse-roles", "%s line %s: the returned status %s is not directly the result of _analyse_defect (computed elsewhere)" % (key, p["line"], out[:60]))
                 continue
-            nret += 1
-            e = lo.resolve(n.get("e"))
-            if not (e.get("k") == "MCall" and cname(e) == "_analyse_defect"):
-                if is_call(e) or e.get("k") in ("Ref", "Cond"):
-                    ck.incomplete("E1.analyse-roles", "%s line %s: the returned status %s is not directly the result of _analyse_defect (computed elsewhere)" % (key, n.get("l"), render(e)[:60]))
-                    continue
-                ok = False
-                why.append("line %s returns %s, not the result of _analyse_defect" % (n.get("l"), render(e)[:60]))
+            args, rest = [], m.group(1)
+            while rest:
+                a, rest = split_top(rest)
+                args.append(a)
+            if len(args) != len(pn):
+                ck.incomplete("E1.analyse-roles", "%s: _analyse_defect is called with %d arguments, its definition has %d parameters" % (key, len(args), len(pn)))
                 continue
-            for pn, a in zip(e.get("pn", []), e.get("a", [])):
-                want = ANALYSE_ROLES.get(pn)
-                got = term(lo, a)
+            for q, got in zip(pn, args):
+                want = ANALYSE_ROLES.get(q)
                 if want is None:
-                    ck.incomplete("E1.analyse-roles", "%s: _analyse_defect has an unknown parameter '%s'" % (key, pn))
+                    ck.incomplete("E1.analyse-roles", "%s: _analyse_defect has an unknown parameter '%s'" % (key, q))
                 elif got != want:
                     ok = False
-                    why.append("line %s: parameter '%s' of _analyse_defect receives %s, expected %s" % (n.get("l"), pn, got, want))
-            # the call must come after the updates of this path: _analyse_defect call id > effects? (dominance)
-            upd = [x for x in fn.nodes() if (x.get("k") == "Un" and term(lo, x["e"]) == "_num_iter") or (x.get("k") == "Assign" and term(lo, x["lhs"]) in ("_def_cur", "_def_prev"))]
-            for u in upd:
-                if not fn.cfg.stmt_dominates(u["i"], e["i"]) and fn.cfg.block_of(u["i"]) and fn.cfg.block_of(e["i"]):
-                    # a conditional write (calc_def) need not dominate; it must at least not follow the call
-                    if fn.cfg.stmt_dominates(e["i"], u["i"]):
-                        ok = False
-                        why.append("line %s: %s happens after the defect was analysed" % (u.get("l"), render(u)[:50]))
-        ck.ob("E1.analyse-roles", key, ok and nret > 0, "; ".join(why) if why else "returns _analyse_defect(num_iter<-_num_iter, def_cur<-_def_cur, def_prev<-_def_prev, check_stag<-true) after the state update", fn.file, fn.line)
+                    why.append("path to line %s: parameter '%s' of _analyse_defect receives %s, expected %s" % (p["line"], q, got, want))
+            # the analysed state is the updated one: no write of _num_iter/_def_cur/_def_prev after the call on this path
+            calls = [ix for ix, ev in enumerate(p["seq"]) if ev[0] == "call" and ev[1] == "_analyse_defect" and ev[2] == out]
+            if not calls:
+                ck.incomplete("E1.analyse-roles", "%s line %s: the _analyse_defect call whose result is returned was not found on the path" % (key, p["line"]))
+                continue
+            late = [ev for ev in p["seq"][calls[-1] + 1:] if ev[0] == "eff" and re.match(r"^(_num_iter|_def_cur|_def_prev)\W", ev[1])]
+            if late:
+                ok = False
+                why.append("path to line %s: %s %s happens after the defect was analysed" % (p["line"], late[0][1], late[0][2]))
+        why = sorted(set(why))
+        ck.ob("E1.analyse-roles", key, ok and bool(ps.paths), "; ".join(why[:3]) if why else "returns _analyse_defect(num_iter<-_num_iter, def_cur<-_def_cur, def_prev<-_def_prev, check_stag<-true) after the state update", fn.file, fn.line)
 
 
 
@@ -3262,19 +3576,79 @@ def rule_validity_flags(ck, solvers):
 # container), IDRS (dense small matrices) and BiCGStabL (coefficient arrays initialised with the literal 1)
 # are outside this engine and listed as not decided.
 E6_SCOPE = {"PCG": [None], "PCR": [None], "PMR": [None], "Richardson": [None], "Chebyshev": [None],
-            "BiCGStab": [("_precon_variant", True), ("_precon_variant", False)], "RBiCGStab": [None], "PipePCG": [None],
+            "BiCGStab": [("eq(_precon_variant,left)", True, "precon_variant=left"), ("eq(_precon_variant,left)", False, "precon_variant=right")],
+            "RBiCGStab": [None], "PipePCG": [None],
             "GroppPCG": [None], "RGCR": [None], "PCGNR": [None], "PCGNRILU": [None]}
+# a variant is (configuration atom in the canonical text of formula(), its truth, key suffix): BiCGStab is analysed once per
+# preconditioning variant.  Further configuration atoms that an _apply_intern tests (fields the solver never writes while
+# iterating, compared with enumerators / literals) are discovered by the engine and enumerated, at most E6_MAX_FREE of them.
+E6_MAX_FREE = 3
 
 
-def rule_dimensions(ck, solvers):
+def base_written_fields(facts):
+    """fields of IterativeSolver that the defect-update protocol writes while a solver iterates"""
+    out = set()
+    todo, seen = list(UPD) + ["_calc_def_norm"], set()
+    fns = {}
+    for f in facts.functions:
+        if short_cls(f.cls) in ("IterativeSolver", "PreconditionedIterativeSolver", "SolverBase") and f.tk in ("inst", "plain") and not f.d.get("ctor"):
+            fns.setdefault(f.name, []).append(f)
+    while todo:
+        nm = todo.pop()
+        if nm in seen:
+            continue
+        seen.add(nm)
+        for f in fns.get(nm, [])[:1]:
+            for n in f.nodes():
+                t = None
+                if n.get("k") == "Assign":
+                    t = strip(n["lhs"])
+                elif n.get("k") == "Un" and n.get("op") in ("++", "--"):
+                    t = strip(n["e"])
+                if isinstance(t, dict) and t.get("k") == "Member" and t.get("field"):
+                    out.add(t["n"])
+                if n.get("k") == "MCall" and (n.get("obj") is None or n["obj"].get("k") == "This") and not n.get("cconst") and not cname(n).startswith("set_"):
+                    todo.append(cname(n))
+    return out
+
+
+_ENUM_CACHE = {}
+
+
+def enumerators_of(type_name):
+    """all enumerator names of an enum type declared in kernel/solver (read from the declaration in the sources); None if not found"""
+    nm = strip_targs(type_name or "").rsplit("::", 1)[-1].strip()
+    if not re.match(r"^\w+$", nm):
+        return None
+    if nm not in _ENUM_CACHE:
+        import glob
+        found = None
+        for path in sorted(glob.glob(featlib.repo_path(SOLVER_DIR) + "*.hpp")):
+            try:
+                src = open(path, encoding="utf-8", errors="replace").read()
+            except OSError:
+                continue
+            m = re.search(r"\benum\s+(?:class\s+|struct\s+)?%s\b[^{;]*\{([^}]*)\}" % re.escape(nm), src)
+            if m:
+                body = re.sub(r"/\*.*?\*/", " ", m.group(1), flags=re.S)
+                body = re.sub(r"//[^\n]*", " ", body)
+                found = [re.sub(r"\s*=.*$", "", x, flags=re.S).strip() for x in body.split(",")]
+                found = [x for x in found if re.match(r"^\w+$", x)]
+                break
+        _ENUM_CACHE[nm] = found
+    return _ENUM_CACHE[nm]
+
+
+def rule_dimensions(ck, solvers, facts=None):
     import c07_dim
+    extra = base_written_fields(facts) if facts is not None else {"_def_init", "_def_cur", "_def_prev", "_num_iter", "_num_stag_iter"}
     for sc in sorted(E6_SCOPE):
         fns = solvers.get(sc, {}).get("_apply_intern", [])
         if not fns:
             ck.incomplete("E6.dimension", "anchor %s::_apply_intern not instantiated" % sc)
             continue
         for variant in E6_SCOPE[sc]:
-            key = "%s::_apply_intern" % sc + ("" if variant is None else "/%s=%s" % (variant[0].strip("_"), "left" if variant[1] else "right"))
+            key = "%s::_apply_intern" % sc + ("" if variant is None else "/" + variant[2])
             bad, nstm = [], 0
             for fn in fns:
                 lo = Locals(fn)
@@ -3285,24 +3659,52 @@ def rule_dimensions(ck, solvers):
                     cand = [f for f in mfl if f.cls == fn.cls and f.cfg is not None and not f.d.get("ctor")]
                     if cand and mname not in api:
                         methods[mname] = cand[0]
-                helpers = {"strip": strip, "objkey": objkey, "cname": cname, "Locals": Locals, "methods": methods}
-                df = c07_dim.DimFlow(fn, lo, helpers, assume=({variant[0]: variant[1]} if variant else None)).run()
-                for u in sorted(set(df.unmodelled))[:4]:
-                    ck.incomplete("E6.dimension", "%s [%s]: unmodelled %s" % (key, short_inst(fn), u))
-                nstm = max(nstm, len(df.sys.sub))
-                culprits = []
-                if df.stmt_conflicts:
+                helpers = {"strip": strip, "objkey": objkey, "cname": cname, "Locals": Locals, "methods": methods, "formula": formula, "term": term,
+                           "written_extra": extra, "root_fn": fn, "Paths": Paths}
+                base = {variant[0]: variant[1]} if variant else {}
+                # configurations: the variant of the key, refined by every further configuration atom the function tests
+                first = c07_dim.DimFlow(fn, lo, helpers, assume=base).run()
+                free = sorted(first.free_atoms)
+                runs = [(base, first, True)]
+                if free and len(free) <= E6_MAX_FREE:
+                    runs = []
+                    enums = {f: enumerators_of(t) for f, t in first.enum_fields.items()}
+                    for bits in itertools.product((True, False), repeat=len(free)):
+                        asm = dict(base)
+                        asm.update(zip(free, bits))
+                        possible = c07_dim.consistent_assume(asm, enums)
+                        if possible is not False:
+                            runs.append((asm, c07_dim.DimFlow(fn, lo, helpers, assume=asm).run(), possible))
+                elif free:
+                    first.opaque.append("%d configuration tests (%s ...), more than this rule enumerates" % (len(free), ", ".join(free[:3])))
+                for asm, df, possible in runs:
+                    cfgtxt = ("" if asm == base else " under {%s}" % ", ".join("%s=%s" % (a, "T" if v else "F") for a, v in sorted(asm.items()) if a not in base))
+                    for u in sorted(set(df.unmodelled))[:4]:
+                        ck.incomplete("E6.dimension", "%s [%s]%s: unmodelled %s" % (key, short_inst(fn), cfgtxt, u))
+                    nstm = max(nstm, len(df.sys.sub))
+                    if not df.stmt_conflicts:
+                        continue
+                    if possible is None:
+                        df.opaque.append("an enum field assumed different from every tested enumerator (the enumerator list of its type was not found in the sources)")
+                    if df.opaque:
+                        # both sides of a test that may depend on the configuration were merged: the conflict may be an artefact
+                        stn, what, h = df.stmt_conflicts[0]
+                        ck.incomplete("E6.dimension", "%s [%s]%s: %s forces %s = 1, but the function branches on %s, which this rule cannot correlate with the configuration: "
+                                      "the conflict may stem from merging two configurations" % (key, short_inst(fn), cfgtxt, what, c07_dim.f_str(h), "; ".join(df.opaque[:3])))
+                        continue
+                    culprits = []
                     # which single statement, if ignored, makes the system consistent again?
                     for n in df.evaluated:
                         if n.get("k") == "Decl" and not any(is_call(x) or x.get("k") == "Bin" for x in walk(n)):
                             continue
-                        d2 = c07_dim.DimFlow(fn, lo, helpers, assume=({variant[0]: variant[1]} if variant else None), skip=(n["i"],)).run()
+                        d2 = c07_dim.DimFlow(fn, lo, helpers, assume=asm, skip=(n["i"],)).run()
                         if not d2.stmt_conflicts:
                             culprits.append("line %s `%s`" % (n.get("l"), render(n)[:60]))
-                for stn, what, h in df.stmt_conflicts[:1]:
-                    bad.append(("consistent again if one of {%s} is ignored; " % "; ".join(culprits[:5]) if culprits else "") + "[%s] line %s `%s`: %s forces %s = 1 (X: solution space, B: right-hand-side space, [A] = B/X): quantities of different dimension are combined" % (
-                        short_inst(fn), (stn or {}).get("l"), render(stn)[:70] if stn else "?", what, c07_dim.f_str(h)))
-                    bad[-1] = bad[-1].replace("; [", "[", 1) if bad[-1].startswith("; ") else bad[-1]
+                    for stn, what, h in df.stmt_conflicts[:1]:
+                        bad.append(("consistent again if one of {%s} is ignored; " % "; ".join(culprits[:5]) if culprits else "") + "[%s]%s line %s `%s`: %s forces %s = 1 (X: solution space, B: right-hand-side space, [A] = B/X): quantities of different dimension are combined" % (
+                            short_inst(fn), cfgtxt, (stn or {}).get("l"), render(stn)[:70] if stn else "?", what, c07_dim.f_str(h)))
+                    if bad:
+                        break
             ck.ob("E6.dimension", key, not bad, "; ".join(bad[:2]) if bad else "the %d equations of the recurrences are consistent" % nstm, fns[0].file, fns[0].line)
 
 
@@ -3438,7 +3840,7 @@ def run(tier):
     rule_apply_correct(ck, solvers)
     rule_rhs_const(ck, facts, solvers)
     rule_config(ck, facts)
-    rule_dimensions(ck, solvers)
+    rule_dimensions(ck, solvers, facts)
     rule_inner_criteria(ck, solvers)
     rule_parallel_lists(ck, solvers)
     rule_numeric_refresh(ck, solvers)
